@@ -25,6 +25,8 @@ Mapping (everything not listed raises Unsupported = exit 3 naming the construct)
     CONTRACT_FUNCS: its body is not translated, only shape-checked).
   * `for (int i = 0; i < E; ++i)` with loop-invariant E → `forN loopMax`.
   * string literals used as memory (memcmp) are objects 20,21,… (`LitsOk`).
+  * only ENTRY POINTS (functions referenced from the method/getset/slot tables) are emitted; calls of other
+    functions of the translation unit are inlined at the call site (depth <= 4, recursion rejected).
 Skipped functions (named explicitly, anything else unknown is an error):
   *_dealloc (only frees; calls through the tp_free slot) and PyInit_* (module
   set-up, touches no buffer memory).
@@ -182,6 +184,8 @@ class FileTr:
         self.lits = {}        # string literal -> object id
         self.n = 0
         self.props = {}
+        self.inline_stack = []
+        self.inlined = {}
         self.collect()
 
     # ---------------------------------------------------------- declarations
@@ -708,18 +712,78 @@ class FileTr:
             return self.args_then(args, pts, env, e,
                                   lambda a, env: self.result(" ".join([f] + a), rt, env, k))
         if f in self.funcs and not self.skipped(f):
-            fn = self.funcs[f]
-            params = fn["params"]
-            if params and params[0][0] == "self":
-                if not (isinstance(args[0], c_ast.ID) and args[0].name == "self"):
-                    bad(e, "call passing something other than self as self")
-                args, params = args[1:], params[1:]
-            for _, pt in params:
-                if is_pyobj(pt):
-                    bad(e, "internal call of a Python-level method")
-            return self.args_then(args, [t for _, t in params], env, e,
-                                  lambda a, env: self.result(" ".join([f] + a), fn["ret"], env, k))
+            return self.inline_call(f, args, env, e, k)
         bad(e, f"call of unknown function {f}")
+
+    # calls of helper functions defined in the same translation unit are INLINED at the call site:
+    # the callee's body becomes a sub-computation `bnd (<body>) fun r => …` with the arguments bound to
+    # its parameters, so every obligation of the helper is re-established in each calling context and
+    # the generated file contains entry points only (no generated helper names for theorems to depend on).
+    MAX_INLINE_DEPTH = 4
+
+    def inline_call(self, f, args, env, e, k):
+        fn = self.funcs[f]
+        if f in self.inline_stack:
+            bad(e, f"recursive call of {f}")
+        if len(self.inline_stack) >= self.MAX_INLINE_DEPTH:
+            bad(e, f"helper calls nested deeper than {self.MAX_INLINE_DEPTH}")
+        params, passes_self = fn["params"], False
+        if params and params[0][0] == "self":
+            if not (isinstance(args[0], c_ast.ID) and args[0].name == "self" and self.cur["lay"] is not None):
+                bad(e, "call passing something other than self as self")
+            pt = params[0][1]
+            if not (isinstance(pt, TPtr) and isinstance(pt.to, TNamed) and pt.to.name == self.cur.get("struct")):
+                bad(e, f"helper {f} takes a different struct as self")
+            passes_self, args, params = True, args[1:], params[1:]
+        for _, pt in params:
+            if is_pyobj(pt):
+                bad(e, "internal call of a Python-level method")
+        if len(args) != len(params):
+            bad(e, f"call of {f} with {len(args)} arguments")
+
+        def with_args(atoms, env):
+            outer = self.cur
+            cur = {"name": outer["name"] + "/" + f, "ret": fn["ret"], "lay": outer["lay"] if passes_self else None,
+                   "struct": outer.get("struct") if passes_self else None, "ltypes": {}, "assigned": set(),
+                   "kwlists": {}, "nargs": None, "fmt": ""}
+            cenv, binds = {}, []
+            for (pn, pt), a in zip(params, atoms):
+                v = self.fresh(pn)
+                binds.append((v, a))
+                cenv[pn] = (v, pt)
+                cur["ltypes"][pn] = pt
+            self.cur = cur
+            self.inline_stack.append(f)
+            try:
+                def end(_env):
+                    if fn["ret"] is VOID:
+                        return "ret ()"
+                    raise Unsupported(f"{f}: control reaches the end of a non-void function")
+                body = self.st([fn["node"].body], cenv, end)
+                if cur["nargs"] is not None:
+                    raise Unsupported(f"{f}: Python argument parsing inside a helper function")
+            finally:
+                self.inline_stack.pop()
+                self.cur = outer
+            for v, a in reversed(binds):
+                body = bind(f"val {a}", v, body)
+            self.inlined.setdefault(f, 0)
+            self.inlined[f] += 1
+            return self.result(f"/- inlined {f} -/\n{body}", fn["ret"], env, k)
+        return self.args_then(args, [t for _, t in params], env, e, with_args)
+
+    def entry_points(self):
+        """functions referenced from the module's method / getset / slot tables"""
+        names = set()
+        funcs = self.funcs
+        class V(c_ast.NodeVisitor):
+            def visit_ID(v, n):
+                if n.name in funcs:
+                    names.add(n.name)
+        for ext in self.ast.ext:
+            if isinstance(ext, c_ast.Decl) and ext.init is not None and not isinstance(ext.type, c_ast.FuncDecl):
+                V().visit(ext.init)
+        return names
 
     def skipped(self, f):
         return f.endswith(SKIP_SUFFIX) or f.startswith(SKIP_PREFIX) or f in CONTRACT_FUNCS
@@ -1094,8 +1158,10 @@ class FileTr:
         out = [f"/- GENERATED by tools/extract_c.py from {src_rel} -- do not edit -/",
                "import AQ.Base.CIR", "set_option linter.unusedVariables false", f"namespace AQ.Gen.{module}", "open AQ.C", ""]
         defs, metas = [], []
+        entry = self.entry_points()
+        helpers = [n for n in self.funcs if not self.skipped(n) and n not in entry]
         for name in self.funcs:
-            if self.skipped(name):
+            if self.skipped(name) or name not in entry:
                 continue
             d, m = self.function(name)
             defs.append(d)
@@ -1110,6 +1176,8 @@ class FileTr:
             sizes = " ∧ ".join(f"s.size {o} = {n}" for _, (o, n, _) in lay["arr"].items()) or "True"
             out.append(f"def {sname}_arrays (s : St) : Prop := {sizes}")
             out.append(f"def {sname}_arraySizes : List (Nat × Int) := [{', '.join(f'({o}, {n})' for _, (o, n, _) in lay['arr'].items())}]")
+        out.append("/- helper functions inlined at their call sites (not emitted): " +
+                   (", ".join(f"{h} x{self.inlined.get(h, 0)}" for h in helpers) or "none") + " -/")
         lits = " ∧ ".join(f"s.size {o} = {len(s) + 1}" for s, o in self.lits.items()) or "True"
         out.append("/-- string literals used as memory objects (NUL-terminated) -/")
         out.append(f"def LitsOk (s : St) : Prop := {lits}")
